@@ -17,6 +17,7 @@ def excName : Exc → String
   | .noSuchProcess => "NoSuchProcess"
   | .accessDenied => "AccessDenied"
   | .fileNotFound => "FileNotFoundError"
+  | .keyError => "KeyError"
 
 def jRes (f : α → Json) : Res α → Json
   | .ok a => jObj [("ok", f a)]
